@@ -23,6 +23,26 @@ JUNK = {
 }
 
 
+# characters that LOOK numeric to str.isdigit() / str.isnumeric() but are no decimal digits (superscripts, subscripts, circled
+# and dingbat digits, fractions, Roman and CJK numerals): a canonical line with one of its digits replaced by one of them is an
+# unparsable line like any other - reported and skipped, never half-decoded
+DIGIT_LIKE = [c for c in "\u00b2\u00b3\u00b9\u2070\u2074\u2075\u2079\u2080\u2081\u2082\u2089\u2460\u2461\u2469\u24ea\u2780\u278a\u00bd\u00bc\u00be"
+                         "\u2167\u2177\u2160\u4e00\u4e8c\u3007\u96f6\u0bf0\u137c\u2488\u24f5"
+              if not c.isdecimal() and (c.isdigit() or c.isnumeric())]
+
+
+def digit_like_junk(r, sec, tick):
+    """a valid line of the section with ONE digit replaced by a digit-like character (for quoted events only in the tick:
+    inside the quotes any character is text)"""
+    line = valid_line(sec, r.choice(["k1", "k2", "k3"]), tick)
+    upto = line.index(" = ") if sec == "events" else len(line)
+    pos = [k for k, c in enumerate(line[:upto]) if c in "0123456789"]
+    k = r.choice(pos)
+    c = r.choice(DIGIT_LIKE)
+    # (replace the digit, or put the character next to it: "10\u00b2 = N 0 0")
+    return line[:k] + c + line[k + 1:] if r.random() < 0.6 else line[:k + 1] + c + line[k + 1:]
+
+
 def valid_line(sec, tok, tick):
     if sec == "track":
         return {"k1": f"{tick} = N {tick % 5} 0", "k2": f"{tick} = S 2 3", "k3": f"{tick} = E solo"}[tok]
@@ -45,7 +65,7 @@ def make_section(r, sec, tokens, copy=False):
     for k, tok in enumerate(tokens, start=1):
         tick = 10 * k
         if tok == "junk":
-            body.append(r.choice(JUNK[sec]))
+            body.append(r.choice(JUNK[sec]) if r.random() < 0.75 else digit_like_junk(r, sec, tick))
         elif copy and tok in REPEATABLE[sec] and tok in latest and r.random() < 0.6:
             line, tick = latest[tok]
             body.append(line)
